@@ -168,7 +168,6 @@ func (s *HeaderScanner) Next() bool {
 		s.Err = errNeedMore
 		return false
 	}
-	oldB := s.B
 	s.Value = s.B[:n]
 	s.HLen += n + 1
 	s.B = s.B[n+1:]
@@ -181,7 +180,7 @@ func (s *HeaderScanner) Next() bool {
 	}
 	s.Value = s.Value[:n]
 	if isMultiLineValue {
-		s.Value, s.B, s.HLen = normalizeHeaderValue(s.Value, oldB, s.HLen)
+		s.Value = normalizeHeaderValue(s.Value)
 	}
 	return true
 }
